@@ -275,6 +275,39 @@ def leafIds : Svc → List Nat
   | .mw s _ => leafIds s
   | .reenter _ _ s => leafIds s
 
+/-- re-scripting the readiness of a leaf changes the answers of exactly that leaf: the ids (and the
+shape) stay, the steps are those of the new script at `i` and the old ones elsewhere -/
+theorem rescript_leafIds (s : Svc) (i rp : Nat) (rok : Bool) : leafIds (rescript s i rp rok) = leafIds s := by
+  induction s <;> simp_all [rescript, leafIds]
+  split <;> simp_all [leafIds]
+
+theorem rescript_leafSteps (s : Svc) (i rp : Nat) (rok : Bool) :
+    leafSteps (rescript s i rp rok) =
+      (List.zip (leafIds s) (leafSteps s)).map (fun p => if p.1 = i then leafStep i rp rok else p.2) := by
+  induction s with
+  | leaf id cp cok rp0 rok0 =>
+    simp only [rescript, leafIds, leafSteps]
+    split <;> simp_all [leafSteps]
+  | fnSvc => simp [rescript, leafIds, leafSteps]
+  | andThen a b iha ihb =>
+    have hl : (leafIds a).length = (leafSteps a).length := by
+      clear iha ihb; induction a <;> simp_all [leafIds, leafSteps]
+    simp [rescript, leafIds, leafSteps, iha, ihb, List.zip_append hl]
+  | _ => simp_all [rescript, leafIds, leafSteps]
+
+theorem rescript_step_mem (s : Svc) (i rp : Nat) (rok : Bool) (hi : i ∈ leafIds s) :
+    leafStep i rp rok ∈ leafSteps (rescript s i rp rok) := by
+  induction s with
+  | leaf id cp cok rp0 rok0 => simp [leafIds] at hi; subst hi; simp [rescript, leafSteps]
+  | fnSvc => simp [leafIds] at hi
+  | andThen a b iha ihb =>
+    simp only [leafIds, List.mem_append] at hi
+    simp only [rescript, leafSteps, List.mem_append]
+    rcases hi with h | h
+    · exact Or.inl (iha h)
+    · exact Or.inr (ihb h)
+  | _ => simp_all [rescript, leafIds, leafSteps]
+
 /-- the readiness error the combined service must report: the error of the first (left to right)
 leaf whose current step is `Err`, mapped by the enclosing `map_err`s -/
 def curErr : Svc → Option Nat
